@@ -40,6 +40,7 @@ fn layout(ch: &mut Chooser) -> cfb::Layout {
         extra_fat_sectors: 0,
         free_mini_sectors: 0,
         name_garbage: ch.flag("cfb.stale-bytes-after-name-terminator"),
+        size_hi_garbage: ch.flag("cfb.v3-junk-in-upper-half-of-size-field"),
     }
 }
 
@@ -110,10 +111,11 @@ fn build(ch: &mut Chooser, family: &str) -> (&'static str, Vec<u8>, String, bool
             let extra = ch.choose("manifest-extra-entries", 3);
             let which = ch.choose("encrypted-entries", 5); // content only, first (root excluded) .., last, all, several
             let n = 3 + extra;
+            let keyinfo = ch.flag("manifest-keyinfo-element-first(OpenPGP)");
             let enc: Vec<usize> = match which { 0 => vec![1], 1 => vec![2], 2 => vec![n - 1], 3 => (1..n).collect(), _ => vec![1, n - 1] };
-            let book = ods::OBook { sheets: vec![ods::OSheet { name: "S".into(), rows: vec![ods::ORow { cells: vec![(ods::OCell::new(ods::OVal::Float("1".into(), "float")), 1)], repeat: 1 }], display: None }], encrypted_entries: enc.clone(), extra_manifest_entries: extra, ..Default::default() };
+            let book = ods::OBook { sheets: vec![ods::OSheet { name: "S".into(), rows: vec![ods::ORow { cells: vec![(ods::OCell::new(ods::OVal::Float("1".into(), "float")), 1)], repeat: 1 }], display: None }], encrypted_entries: enc.clone(), extra_manifest_entries: extra, manifest_keyinfo: keyinfo, ..Default::default() };
             // the content of an encrypted package is ciphertext
-            ("ods", ods::write_with_content(&book, &cipher(700, 11), if ch.flag("zip-stored") { Method::Stored } else { Method::Deflated }), format!("ods manifest with {n} entries, encryption-data on {enc:?}"), true)
+            ("ods", ods::write_with_content(&book, &cipher(700, 11), if ch.flag("zip-stored") { Method::Stored } else { Method::Deflated }), format!("ods manifest with {n} entries, encryption-data on {enc:?}, keyinfo first: {keyinfo}"), true)
         }
         _ => {
             // converse: unencrypted workbooks of every format in CFB/ZIP variations
